@@ -272,18 +272,20 @@ def msg_body(item, env, bound):
 
     def body(ctx):
         try:
+            # field values differ from item to item and between subsets, so that a value taken from the wrong node shows
             if queues is None:
-                b, spec, subs, notes = S.build_message(ctx, descs, nsub=env['nsub'], compressed=env['compressed'],
-                                                       share_structure=True)
+                b, spec, subs, notes = S.build_distinct_message(ctx, descs, nsub=env['nsub'], compressed=env['compressed'],
+                                                                share_structure=True)
             else:
-                b, spec, subs, notes = S.build_struct_message(ctx, descs, queues, free, nsub=env['nsub'],
-                                                              compressed=env['compressed'], variant_of_subset=[0] * env['nsub'])
+                b, spec, subs, notes = S.build_distinct_message(ctx, descs, nsub=env['nsub'], compressed=env['compressed'],
+                                                                queues=queues, free=free,
+                                                                variant_of_subset=env.get('vmap') or [0] * env['nsub'])
         except codec.RefError as e:
             return {'skip': 'ref'}
         if notes:
             return {'skip': 'envelope'}
         variants = []
-        if env['nsub'] > 1:
+        if env['nsub'] > 1 and not env.get('vmap'):
             # same subsets stored the other way: rebuild from the expected raws
             try:
                 variants.append(restore(descs, subs, not env['compressed']))
@@ -392,6 +394,15 @@ def main(tier, seed):
     plan = [('G-u2', gpool, dict(nsub=2, compressed=False)), ('G-c2', gpool, dict(nsub=2, compressed=True)),
             ('bitmap-u1', bpool, dict(nsub=1, compressed=False)),
             ('bitmap-c2', bpool if tier == 'thorough' else list(BM.chain1(0)), dict(nsub=2, compressed=True))]
+    plan.append(('bitmap-u2-diff', list(BM.chain1(L, 2)), dict(nsub=2, compressed=False, vmap=[0, 1])))
+    # three bitmapped elements, bit patterns that differ between the subsets but have the same number of zero bits:
+    # the flat descriptor lists of the subsets are then identical while the attributes hang on different elements, and
+    # some element carries the attribute in every subset (so the attribute query is defined for all of them)
+    same_zero = [st for st in BM.chain1(1, 2) if st[0].startswith('b3|') and '.direct.3.' in st[0] and st[0].endswith('.fixed')
+                 and len({pt.count('0') for pt in st[0].split('.')[3].split('/')}) == 1]
+    plan.append(('bitmap-u2-same-zero-count', same_zero, dict(nsub=2, compressed=False, vmap=[0, 1])))
+    plan.append(('bitmap-u3-diff', list(BM.chain1(0, 2)), dict(nsub=3, compressed=False, vmap=[1, 0, 1])))
+    plan.append(('bitmap-in-replication', list(BM.wrapped(BM.chain1(0), 2, True)), dict(nsub=1, compressed=False)))
     if tier == 'thorough':
         plan.append(('G-u3', gpool, dict(nsub=3, compressed=False)))
     for name, items, env in plan:
